@@ -742,12 +742,18 @@ struct World {
 				if (in.cur >= 0) in.cur = -1;
 			} else {
 				++s.exits; s.exitSid = sid;
-				if (in.cur != static_cast<int>(sid)) V("C01", "exit-of-state-that-is-not-current", fmt("exit(%u) but the state entered most recently without exit is %d; %s", sid, in.cur, tail().c_str()));
+				if (in.cur != static_cast<int>(sid)) {
+					V("C01", "exit-of-state-that-is-not-current", fmt("exit(%u) but the state entered most recently without exit is %d; %s", sid, in.cur, tail().c_str()));
+					V("C14", "callbacks-of-a-state-that-was-not-addressed|exit", fmt("exit() ran on state %u, the state that is active (and the only one whose callbacks may run) is %d; %s", sid, in.cur, tail().c_str()));
+				}
 				in.cur = -1;
 			}
 		} else {
 			++s.reenters; s.reenterSid = sid;
-			if (sid == ROOT || in.cur != static_cast<int>(sid)) V("C01", "reenter-of-non-active-state", fmt("reenter(%u) while %d is the active state; %s", sid, in.cur, tail().c_str()));
+			if (sid == ROOT || in.cur != static_cast<int>(sid)) {
+				V("C01", "reenter-of-non-active-state", fmt("reenter(%u) while %d is the active state; %s", sid, in.cur, tail().c_str()));
+				V("C14", "callbacks-of-a-state-that-was-not-addressed|reenter", fmt("reenter() ran on state %u while %d is the active state; %s", sid, in.cur, tail().c_str()));
+			}
 		}
 	}
 
